@@ -190,6 +190,51 @@ func (f *file) dispatchCtx(fnName string) (map[string]int64, bool) {
 	return out, true
 }
 
+
+// queueLenReceivers inspects ServantProxy.doInvoke (with the fallback reading a helper that is new
+// relative to the baseline is seen inlined): the `atomic.AddInt32(<X>.queueLen, +n)` that takes the
+// slot and the `atomic.AddInt32(<Y>.queueLen, -n)` of the deferred cleanup. It reports 1 iff both are
+// found exactly once and X and Y are both the method's own receiver (`&s.queueLen`): a decrement on
+// another proxy's counter (`&c.servantProxy.queueLen`, `&adp.servantProxy.queueLen`) does not qualify.
+func (f *file) queueLenReceivers(fnName string) (int64, bool) {
+	fd := f.funcDecl(fnName)
+	if fd == nil {
+		return 0, false
+	}
+	recv := ""
+	if fd.Recv != nil && len(fd.Recv.List) == 1 && len(fd.Recv.List[0].Names) == 1 {
+		recv = fd.Recv.List[0].Names[0].Name
+	}
+	var incs, decs []string
+	ast.Inspect(fd, func(n ast.Node) bool {
+		call, ok := n.(*ast.CallExpr)
+		if !ok || exprStr(f.fset, call.Fun) != "atomic.AddInt32" || len(call.Args) != 2 {
+			return true
+		}
+		a0 := exprStr(f.fset, call.Args[0])
+		if len(a0) < 9 || a0[len(a0)-9:] != ".queueLen" {
+			return true
+		}
+		if v, ok := intLit(call.Args[1]); ok {
+			if v > 0 {
+				incs = append(incs, a0)
+			} else if v < 0 {
+				decs = append(decs, a0)
+			}
+		}
+		return true
+	})
+	if len(incs) != 1 || len(decs) != 1 {
+		anchorLost("%s: %s: expected one increment and one decrement of a queueLen counter, found %v / %v", f.path, fnName, incs, decs)
+		return 0, false
+	}
+	own := "&" + recv + ".queueLen"
+	if recv != "" && incs[0] == own && decs[0] == own {
+		return 1, true
+	}
+	return 0, true
+}
+
 func c08AppendUnique(l []string, names ...string) []string {
 	for _, n := range names {
 		dup := false
@@ -233,6 +278,8 @@ func init() {
 		// doInvoke: counters and the reply channel
 		v, ok = sv.callArgLit("ServantProxy.doInvoke", "atomic.AddInt32", 0, "&s.queueLen", 1)
 		add("callQueueLenInc", v, ok)
+		v, ok = sv.queueLenReceivers("ServantProxy.doInvoke")
+		add("callQueueLenDecSameReceiver", v, ok)
 		v, ok = sv.makeChanCap("ServantProxy.doInvoke", "readCh")
 		add("callReplyChanCap", v, ok)
 		ad := parse("tars/adapter.go")
